@@ -1,9 +1,146 @@
 import CalVerif.Lemmas.Cfb
 /-! # C13 — compound-file streams are recovered whatever the container's physical layout
-    Property theorems only (helper lemmas live in `Lemmas/Cfb.lean`). -/
+
+    Property theorems only (helper lemmas live in `Lemmas/Cfb.lean`).
+
+    * reader model: `Model/Cfb.lean` (`Cfb.new`, `Cfb.getStream`, `Cfb.readStream`, …), mirroring
+      `src/cfb.rs` after the fixes D25 and D29;
+    * encoder: `Spec/CfbLayout.lean`: `layoutCfb streams L` lays the streams out as the layout `L`
+      (data) says; `Valid streams L` is the decidable consistency condition. It constrains neither
+      the sector size (512/4096), nor the allocation (`owner` is an arbitrary array: any injective
+      assignment of sector numbers to chain positions, any fragmentation, any free sectors), nor the
+      number of FAT sectors (any `nfat` with `nfat * perFat ≥ total`), nor the number of DIFAT
+      sectors (any `ndif` with `109 + ndif * (perFat - 1) ≥ nfat`), nor the order of the directory
+      entries or the unused entries among them, nor the mini-sector allocation, nor the padding byte.
+
+    Main result: `cfb_roundtrip`. -/
 namespace Cfb
 
-/-! ## termination (C06 flavour): the bounded chain walk of the fixed code never runs out of fuel,
+/-! ## following a chain -/
+
+/-- `chain_follow`: in ANY allocation table in which `ids` is recorded as a chain
+    (`fats[ids[i]] = ids[i+1]`, the last one maps to ENDOFCHAIN), the bounded loop of `get_chain`
+    started at `ids[0]` returns exactly the sectors `ids[0], …, ids[n-1]` in this order (their
+    contents concatenated), whatever the state of the lazy sector cache. No injectivity or ordering
+    assumption on `ids`: permuted and fragmented chains are covered. -/
+theorem chain_follow (fats : List Nat) (body : Bytes) (ids : List Nat) (rem : Nat) (s : Sectors) (rd : Bytes)
+    (hcache : s.data ++ rd = body) (hrem : ids.length ≤ rem)
+    (hchain : ∀ i (h : i < ids.length), ids[i] ≠ ENDOFCHAIN ∧ fats[ids[i]]? = some (ids[i+1]?.getD ENDOFCHAIN)) :
+    ∃ s' rd', Sectors.chainLoop fats rem (ids[0]?.getD ENDOFCHAIN) s rd =
+        .ok ((ids.map (sec body s.size)).flatten, s', rd') ∧ s'.data ++ rd' = body ∧ s'.size = s.size :=
+  chainLoop_follow fats body ids rem s rd hcache hrem hchain
+
+/-- the lazily filled cache is transparent: `Sectors::get` returns the sector of the underlying
+    sector area (clipped at EOF), whatever has been read before -/
+theorem sector_get_cache_independent (s : Sectors) (id : Nat) (rd body : Bytes) (h : s.data ++ rd = body) :
+    (s.get id rd).1 = sec body s.size id ∧ (s.get id rd).2.1.data ++ (s.get id rd).2.2 = body :=
+  ⟨(Sectors.get_spec s id rd body h).1, (Sectors.get_spec s id rd body h).2.1⟩
+
+/-- `read_chain_concat`: reading the sectors of chain `c` of a space in chain order yields the
+    chain's data cut into sector-sized pieces (the last one padded), for every allocation `sp`
+    that passes `chainOK` (owner and chain views agree) -/
+theorem read_chain_concat (sp : Space) (ss : Nat) (hss : 0 < ss) (fill : UInt8) (P : Array (Array Bytes))
+    (fatSec difSec : Nat → Bytes)
+    (hP : UniformP ss P) (hf : ∀ j, (fatSec j).length = ss) (hd : ∀ j, (difSec j).length = ss)
+    (c : Nat) (D : Bytes) (hPc : P[c]? = some (pieces ss fill D))
+    (hok : chainOK sp c (nsect ss D.length) = true) :
+    ((sp.ids c).map (sec (sp.body ss fill P fatSec difSec) ss)).flatten = (padChunks ss fill D.length D).flatten := by
+  rw [Space.read_chain sp ss hss fill P fatSec difSec hP hf hd c D hPc hok]
+
+/-- `truncate_to_size`: the padded pieces, concatenated and truncated to the declared size, are the data -/
+theorem truncate_to_size (ss : Nat) (fill : UInt8) (hss : 0 < ss) (D : Bytes) :
+    ((padChunks ss fill D.length D).flatten).take D.length = D :=
+  padChunks_flatten_take ss fill hss D.length D (Nat.le_refl _)
+
+/-- a chain of `n` distinct sectors fits the bound of the fixed loop (`remaining = fats.len()`):
+    the pigeonhole step that makes the cycle guard harmless on valid files -/
+theorem chain_fits_table (sp : Space) (c n : Nat) (h : chainOK sp c n = true) : n ≤ sp.owner.size :=
+  chain_size_le sp c n h
+
+/-- chain read = data, for any chain of any space (main sectors or mini sectors), any `owner` -/
+theorem chain_roundtrip (sp : Space) (ss : Nat) (hss : 0 < ss) (fill : UInt8) (P : Array (Array Bytes))
+    (fatSec difSec : Nat → Bytes)
+    (hP : UniformP ss P) (hf : ∀ j, (fatSec j).length = ss) (hd : ∀ j, (difSec j).length = ss)
+    (c : Nat) (D : Bytes) (hPc : P[c]? = some (pieces ss fill D))
+    (hok : chainOK sp c (nsect ss D.length) = true)
+    (len : Nat) (hlen : sp.owner.size ≤ len) (hres : sp.owner.size ≤ RESERVED)
+    (s : Sectors) (rd : Bytes) (hsz : s.size = ss) (hinv : s.data ++ rd = sp.body ss fill P fatSec difSec) :
+    ∃ s' rd', s.getChain (chainStart sp c) (sp.fats len) rd D.length = .ok (D, s', rd') ∧
+      s'.data ++ rd' = sp.body ss fill P fatSec difSec ∧ s'.size = ss :=
+  Space.getChain_data sp ss hss fill P fatSec difSec hP hf hd c D hPc hok len hlen hres s rd hsz hinv
+
+/-! ## header and directory entries -/
+
+/-- `header_roundtrip`: the reader recovers every header field and the 109 header DIFAT entries, and
+    is positioned at the first sector (512- and 4096-byte sectors) -/
+theorem header_roundtrip (streams : List Stream) (L : Layout) (h : Valid streams L) :
+    Header.fromReader (layoutCfb streams L) = .ok (hdrOf streams L, hdrDifat L, mainBody streams L) :=
+  fromReader_layout streams L (hdrFields_lt streams L (valid_unpack streams L h))
+    (hdrDifat_lt streams L (valid_unpack streams L h))
+
+/-- `dir_entry_roundtrip`: name (UTF-16, BMP and astral, up to 31 units), start sector and size
+    (32 bits in version 3, 64 bits in version 4) of a directory entry are recovered -/
+theorem dir_entry_roundtrip (name : List Char) (typ : UInt8) (start size ss : Nat) (hn : nameEncOK name = true)
+    (hs : start < 4294967296)
+    (hsz : (ss = 512 ∧ size < 4294967296) ∨ (ss ≠ 512 ∧ size < 18446744073709551616)) :
+    Dir.fromSlice (dirEntry name typ start size) ss = .ok ⟨name, start, size⟩ :=
+  fromSlice_dirEntry name typ start size ss hn hs hsz
+
+/-- UTF-16 encoding/decoding of names round-trips (whatever follows) -/
+theorem utf16_roundtrip (cs : List Char) (t : List Nat) : decodeUtf16 (utf16Units cs ++ t) = cs ++ decodeUtf16 t :=
+  decode_units cs t
+
+/-! ## the container as a whole -/
+
+/-- `Cfb::new` succeeds on every generated container and knows every stream (used by C20) -/
+theorem new_ok (streams : List Stream) (L : Layout) (h : Valid streams L) :
+    ∃ c rd, Cfb.new (layoutCfb streams L) (layoutCfb streams L).length = .ok (c, rd) ∧
+      Good streams L c rd ∧ ∀ st ∈ streams, hasDirectory c st.name = true := by
+  have hv := valid_unpack streams L h
+  obtain ⟨c, rd, he, hg⟩ := new_layout_good streams L hv
+  exact ⟨c, rd, he, hg, fun st hst => hasDirectory_layout streams L hv c rd hg st hst⟩
+
+/-- `get_stream` returns the logical stream and keeps the reader state good: streams can be read
+    in any order, any number of times, on the same `Cfb` and reader -/
+theorem get_stream_ok (streams : List Stream) (L : Layout) (h : Valid streams L) (c : CfbSt) (rd : Bytes)
+    (hg : Good streams L c rd) (st : Stream) (hst : st ∈ streams) :
+    ∃ c' rd', getStream c st.name rd = .ok (st.data, c', rd') ∧ Good streams L c' rd' := by
+  obtain ⟨s0, hs0, rfl⟩ := List.getElem_of_mem hst
+  exact getStream_layout streams L (valid_unpack streams L h) c rd hg s0 streams[s0] (by simp [hs0])
+
+/-- **C13** `cfb_roundtrip`: for every set of streams and every valid physical layout, opening the
+    container and reading a stream by name yields the byte-exact logical stream — regular chains
+    and mini stream, 512- and 4096-byte sectors, any permutation/fragmentation, any number of FAT and
+    DIFAT sectors, any directory order, unused entries and free sectors. -/
+theorem cfb_roundtrip (streams : List Stream) (L : Layout) (h : Valid streams L) (st : Stream) (hst : st ∈ streams) :
+    readStream (layoutCfb streams L) st.name = .ok st.data := by
+  obtain ⟨c, rd, he, hg, _⟩ := new_ok streams L h
+  obtain ⟨c', rd', hget, _⟩ := get_stream_ok streams L h c rd hg st hst
+  unfold readStream
+  rw [he]
+  simp only [Res.bind_ok]
+  rw [hget]
+  rfl
+
+/-- the regular-sector case (streams of at least 4096 bytes) -/
+theorem cfb_roundtrip_regular (streams : List Stream) (L : Layout) (h : Valid streams L)
+    (_hall : ∀ st ∈ streams, 4096 ≤ st.data.length) (st : Stream) (hst : st ∈ streams) :
+    readStream (layoutCfb streams L) st.name = .ok st.data :=
+  cfb_roundtrip streams L h st hst
+
+/-- the mini-stream case (streams shorter than 4096 bytes, stored in 64-byte mini sectors) -/
+theorem cfb_roundtrip_mini (streams : List Stream) (L : Layout) (h : Valid streams L)
+    (st : Stream) (hst : st ∈ streams) (_hmini : st.data.length < 4096) :
+    readStream (layoutCfb streams L) st.name = .ok st.data :=
+  cfb_roundtrip streams L h st hst
+
+/-- `containers_equal`: two containers holding the same streams read the same, whatever their layouts -/
+theorem containers_equal (streams : List Stream) (L₁ L₂ : Layout) (h₁ : Valid streams L₁) (h₂ : Valid streams L₂)
+    (st : Stream) (hst : st ∈ streams) :
+    readStream (layoutCfb streams L₁) st.name = readStream (layoutCfb streams L₂) st.name := by
+  rw [cfb_roundtrip streams L₁ h₁ st hst, cfb_roundtrip streams L₂ h₂ st hst]
+
+/-! ## termination (C06 flavour): the chain walk of the fixed code is bounded by the table length,
     whatever the allocation table contains (cycles included) -/
 
 theorem chainLoop_total (fats : List Nat) (rem id : Nat) (s : Sectors) (rd : Bytes) :
@@ -19,12 +156,53 @@ theorem chainLoop_total (fats : List Nat) (rem id : Nat) (s : Sectors) (rd : Byt
     have := ih next (s.get id rd).2.1 (s.get id rd).2.2
     split <;> simp_all
 
+/-- on ANY allocation table `get_chain` terminates with a result or an error (never out of fuel):
+    the loop is bounded by `fats.len()` iterations -/
 theorem getChain_total (s : Sectors) (start : Nat) (fats : List Nat) (rd : Bytes) (len : Nat) :
     s.getChain start fats rd len ≠ .outOfFuel := by
   unfold Sectors.getChain
   have := chainLoop_total fats fats.length start s rd
   split <;> simp_all
 
+/-- on an acyclic (valid) chain the bound `fats.len()` is never the reason for an error: a fuel of
+    the number of sectors of the chain suffices (statement of `chain_follow` with `rem = ids.length`) -/
+theorem chain_fuel_suffices (fats : List Nat) (body : Bytes) (ids : List Nat) (s : Sectors) (rd : Bytes)
+    (hcache : s.data ++ rd = body)
+    (hchain : ∀ i (h : i < ids.length), ids[i] ≠ ENDOFCHAIN ∧ fats[ids[i]]? = some (ids[i+1]?.getD ENDOFCHAIN)) :
+    ∃ r, Sectors.chainLoop fats ids.length (ids[0]?.getD ENDOFCHAIN) s rd = .ok r := by
+  obtain ⟨s', rd', he, _, _⟩ := chainLoop_follow fats body ids ids.length s rd hcache (Nat.le_refl _) hchain
+  exact ⟨_, he⟩
+
+/-- a self-referencing chain is an error, not a hang (the D29 input) -/
 example : Sectors.getChain ⟨[], 512⟩ 0 [0] [1, 2, 3] 0 = .err "io" := by decide
+
+/-! ## a concrete instance -/
+
+/-- a non-trivial instance: version 3, one regular stream of 4100 bytes (9 sectors, fragmented and
+    out of order, the last sector stored first), one mini stream of 100 bytes (2 mini sectors in reverse
+    order with a free mini sector between them), a free sector, directory order unused/mini/regular -/
+def exRegular : Stream := ⟨"Workbook".toList, (List.range 4100).map (fun i => UInt8.ofNat (i * 7 + i / 256))⟩
+def exMini : Stream := ⟨"é😀".toList, (List.range 100).map (fun i => UInt8.ofNat (255 - i))⟩
+def exStreams : List Stream := [exRegular, exMini]
+
+def exLayout : Layout :=
+  { v4 := false
+    main := { owner := #[.data 3 8, .fat 0, .data 0 0, .data 3 0, .free, .data 3 2, .data 3 1, .data 2 0,
+                          .data 3 3, .data 1 0, .data 3 5, .data 3 4, .data 3 7, .data 3 6]
+              chains := #[#[2], #[9], #[7], #[3, 6, 5, 8, 11, 10, 13, 12, 0], #[]] }
+    fatIds := #[1]
+    difIds := #[]
+    mini := { owner := #[.data 1 1, .free, .data 1 0], chains := #[#[], #[2, 0]] }
+    dirOrder := [none, some 1, some 0]
+    fill := 0xAA }
+
+/-- the hypotheses of `cfb_roundtrip` are satisfiable by a non-trivial instance -/
+theorem exValid : Valid exStreams exLayout := by decide +kernel
+
+example : readStream (layoutCfb exStreams exLayout) exMini.name = .ok exMini.data :=
+  cfb_roundtrip exStreams exLayout exValid exMini (List.mem_cons_of_mem _ (List.mem_cons_self ..))
+
+/-- the same by plain evaluation of the encoder and the reader model in the kernel -/
+example : readStream (layoutCfb exStreams exLayout) exMini.name = .ok exMini.data := by decide +kernel
 
 end Cfb
